@@ -61,7 +61,7 @@ var specC07 = reg(&checkSpec{
 
 var specC08 = reg(&checkSpec{
 	prop: "C08", profiles: []string{"member", "member", "transfer"},
-	deciding: []string{"config-safety", "leader-unique", "leader-complete", "commit-stable"},
+	deciding: []string{"config-safety", "info-config", "leader-unique", "leader-complete", "commit-stable"},
 	rule:     "non-trivial: >=2 configuration entries appended by leaders and >=2 leaders elected; distinct by trace hash",
 	nontrivial: func(c *cluster) bool { return c.stats.count("leader-config-change") >= 2 && c.led.leadersElected >= 2 },
 })
